@@ -1,8 +1,9 @@
 (* C08 — lemmas.  The executable walk / notifier loop of Model.v against the
    specification [expected] of Common/ObsCore.v; the invariant over histories. *)
-From Coq Require Import List Arith Bool PeanoNat Permutation Lia.
-From TV Require Import Common.ObsCore C08.Model.
+From Coq Require Import ZArith List Arith Bool PeanoNat Permutation Lia.
+From TV Require Import Common.Harness Common.ObsCore C08.Model C08.Law.
 Import ListNotations.
+Open Scope nat_scope.
 
 (* ---------- the two walk orders list exactly the expected hooks ---------- *)
 Lemma add_order_expected h k g : forall x, Permutation (add_order h k g x) (expected h k g x).
@@ -25,6 +26,9 @@ Proof.
   rewrite (app_assoc (if n then _ else _)).
   apply Permutation_app_tail. apply Permutation_app_comm.
 Qed.
+
+Lemma upd_other_slot h o f v x g : slot_eqb x g o f = false -> upd h o f v x g = h x g.
+Proof. intros E. unfold upd. rewrite E. reflexivity. Qed.
 
 Lemma sumexp_single h k c ys : sumexp h k [c] ys = flat_map (fun y => expected h k c y) ys.
 Proof. unfold sumexp. apply flat_map_ext_In. intros y _. cbn. apply app_nil_r. Qed.
@@ -213,6 +217,109 @@ Proof.
     pose proof (users_on_expected_key h k o fo g (snd k) u Hu) as ->. exact Hu.
 Qed.
 
+(* ---------- maintainers that cannot come back to the slot leave its notifier list alone ---------- *)
+Lemma hooks_on_visited h k g : forall x z fz kd,
+  In (z, fz, kd) (expected h k g x) -> visits h g x z fz = true.
+Proof.
+  induction g as [f n cs IH] using graph_ind'. intros x z fz kd I. rewrite Forall_forall in IH.
+  cbn [expected visits] in *. apply orb_true_iff. apply in_app_or in I. destruct I as [I|I].
+  - left. destruct n; [|destruct I]. destruct I as [E|[]]. inversion E. apply slot_eqb_refl.
+  - apply in_app_or in I. destruct I as [I|I].
+    + left. apply in_map_iff in I. destruct I as [c [E _]]. inversion E. apply slot_eqb_refl.
+    + right. apply in_flat_map in I. destruct I as [y [Hy I]]. apply in_flat_map in I. destruct I as [c [Hc I]].
+      apply existsb_exists. exists y. split; [exact Hy|]. apply existsb_exists. exists c. split; [exact Hc|].
+      apply (IH c Hc y z fz kd I).
+Qed.
+
+Lemma visits_frame h g o fo v : forall x,
+  visits h g x o fo = false -> visits (upd h o fo v) g x o fo = false.
+Proof.
+  induction g as [f n cs IH] using graph_ind'. intros x V. rewrite Forall_forall in IH.
+  cbn [visits] in *. apply orb_false_iff in V. destruct V as [V1 V2]. rewrite V1. cbn [orb].
+  rewrite (upd_other_slot h o fo v x f V1).
+  apply not_true_is_false. intros Q.
+  apply existsb_exists in Q. destruct Q as [y [Hy Q]]. apply existsb_exists in Q. destruct Q as [c [Hc Q]].
+  pose proof (existsb_false_In _ _ V2 y Hy) as E. cbv beta in E. pose proof (existsb_false_In _ _ E c Hc) as E2.
+  rewrite (IH c Hc y E2) in Q. discriminate.
+Qed.
+
+Definition off_slot (o : oid) (fo : fname) (A : list (oid * fname * kind)) : Prop :=
+  forall z fz kd, In (z, fz, kd) A -> slot_eqb z fz o fo = false.
+
+Lemma on_slot_app H A o fo : on_slot (H ++ A) o fo = on_slot H o fo ++ on_slot A o fo.
+Proof. unfold on_slot. apply flat_map_app. Qed.
+Lemma on_slot_off A o fo : off_slot o fo A -> on_slot A o fo = [].
+Proof.
+  intros O. unfold on_slot. apply flat_map_nil_In. intros [[z fz] kd] I. rewrite (O z fz kd I). reflexivity.
+Qed.
+Lemma on_slot_remove1 x H H' o fo :
+  (let '(z, fz, _) := x in slot_eqb z fz o fo = false) -> remove1 x H = Some H' -> on_slot H' o fo = on_slot H o fo.
+Proof.
+  destruct x as [[z fz] kd]. intros O. revert H'. induction H as [|y H IH]; intros H' E; [discriminate|].
+  cbn [remove1] in E. destruct (hook_eqb (z, fz, kd) y) eqn:Q.
+  - apply hook_eqb_spec in Q. subst y. inversion E; subst. unfold on_slot. cbn [flat_map]. rewrite O. reflexivity.
+  - destruct (remove1 (z, fz, kd) H) as [H0|]; [|discriminate]. inversion E; subst.
+    unfold on_slot in *. cbn [flat_map]. rewrite (IH H0 eq_refl). reflexivity.
+Qed.
+Lemma on_slot_remove_all R o fo : off_slot o fo R -> forall H H',
+  remove_all R H = Some H' -> on_slot H' o fo = on_slot H o fo.
+Proof.
+  induction R as [|x R IH]; intros O H H' E; cbn [remove_all] in E; [inversion E; reflexivity|].
+  destruct (remove1 x H) as [H1|] eqn:E1; [|discriminate].
+  rewrite (IH (fun z fz kd I => O z fz kd (or_intror I)) H1 H' E).
+  apply (on_slot_remove1 x H H1 o fo); [|exact E1]. destruct x as [[z fz] kd]. apply (O z fz kd). left. reflexivity.
+Qed.
+
+Lemma expected_off_slot h k c y o fo : visits h c y o fo = false -> off_slot o fo (expected h k c y).
+Proof.
+  intros V z fz kd I. destruct (slot_eqb z fz o fo) eqn:Q; [exfalso|reflexivity].
+  apply slot_eqb_true in Q. destruct Q as [-> ->]. apply hooks_on_visited in I. congruence.
+Qed.
+Lemma off_slot_perm o fo A B : Permutation A B -> off_slot o fo B -> off_slot o fo A.
+Proof. intros P O z fz kd I. apply (O z fz kd). apply (Permutation_in _ P). exact I. Qed.
+
+Lemma add_objs_on_slot h k c ys o fo : (forall y, In y ys -> visits h c y o fo = false) ->
+  forall H, on_slot (add_objs h k c ys H) o fo = on_slot H o fo.
+Proof.
+  unfold add_objs. induction ys as [|y ys IH]; intros V H; cbn [fold_left]; [reflexivity|].
+  rewrite IH by (intros y' I; apply V; right; exact I). rewrite on_slot_app.
+  rewrite (on_slot_off (add_order h k c y)); [apply app_nil_r|].
+  apply (off_slot_perm _ _ _ _ (add_order_expected h k c y)). apply expected_off_slot. apply V. left. reflexivity.
+Qed.
+Lemma rem_objs_on_slot h k c ys o fo : (forall y, In y ys -> visits h c y o fo = false) ->
+  forall H, on_slot (fst (rem_objs h k c ys H)) o fo = on_slot H o fo.
+Proof.
+  induction ys as [|y ys IH]; intros V H; cbn [rem_objs]; [reflexivity|].
+  destruct (remove_all (rem_order h k c y) H) as [H1|] eqn:E; [|reflexivity].
+  rewrite IH by (intros y' I; apply V; right; exact I).
+  apply (on_slot_remove_all (rem_order h k c y) o fo); [|exact E].
+  apply (off_slot_perm _ _ _ _ (rem_order_expected h k c y)). apply expected_off_slot. apply V. left. reflexivity.
+Qed.
+Lemma maintain_on_slot h strict k c rem add o fo :
+  (forall y, In y rem \/ In y add -> visits h c y o fo = false) ->
+  forall H, on_slot (fst (maintain h strict k c rem add H)) o fo = on_slot H o fo.
+Proof.
+  intros V H. unfold maintain.
+  pose proof (rem_objs_on_slot h k c rem o fo (fun y I => V y (or_introl I)) H) as R.
+  destruct (rem_objs h k c rem H) as [H1 ok]. cbn [fst] in R.
+  destruct ok; [|destruct strict]; cbn [fst]; rewrite ?add_objs_on_slot by (intros y I; apply V; right; exact I);
+    exact R.
+Qed.
+Lemma notify_loop_on_slot h strict rem add o fo : forall ns seen H,
+  (forall kc y, In kc (maints_of ns) -> In y rem \/ In y add -> visits h (snd kc) y o fo = false) ->
+  on_slot (fst (fst (notify_loop h strict ns seen rem add H))) o fo = on_slot H o fo.
+Proof.
+  induction ns as [|[k|k c] ns IH]; intros seen H V; cbn [notify_loop]; [reflexivity| |].
+  - destruct (mem_key k seen).
+    + apply IH. exact V.
+    + specialize (IH (k :: seen) H V). destruct (notify_loop h strict ns (k :: seen) rem add H) as [[H' ks] ok].
+      exact IH.
+  - pose proof (maintain_on_slot h strict k c rem add o fo
+                  (fun y I => V (k, c) y (or_introl eq_refl) I) H) as M.
+    destruct (maintain h strict k c rem add H) as [H1 ok]. cbn [fst] in M. destruct ok; [|exact M].
+    rewrite IH; [exact M|]. intros kc y I. apply V. right. exact I.
+Qed.
+
 Section Change.
   Variables (st : state) (o : oid) (fo : fname) (news removed added keep : list oid) (prevented strict : bool).
   Let h := st_heap st.
@@ -258,7 +365,17 @@ Section Change.
     unfold change. fold h. fold h'. fold H.
     destruct (notify_loop_spec h' strict removed added (on_slot H o fo) [] H K SPLIT')
       as [H' [ks [E [PH [ND Sp]]]]].
-    rewrite E. exists H', ks. split; [reflexivity|]. rewrite (maints_of_on_slot H o fo) in PH. fold M in PH.
+    rewrite E.
+    (* the live-iteration round is empty: the maintainers did not touch this slot's list *)
+    assert (on_slot H' o fo = on_slot H o fo) as SAME.
+    { pose proof (notify_loop_on_slot h' strict removed added o fo (on_slot H o fo) [] H) as L.
+      rewrite E in L. cbn [fst] in L. apply L. intros kc y Ikc Iy. apply visits_frame.
+      apply Hacyc; [apply MinO; unfold M; rewrite <- maints_of_on_slot; exact Ikc|].
+      destruct Iy as [Iy|Iy]; [left; apply RinO; exact Iy|right; apply AinN; exact Iy]. }
+    rewrite SAME, skipn_all.
+    replace (if strict && true then @nil kind else []) with (@nil kind) by (destruct strict; reflexivity).
+    cbn [notify_loop andb]. rewrite app_nil_r.
+    exists H', ks. split; [reflexivity|]. rewrite (maints_of_on_slot H o fo) in PH. fold M in PH.
     split; [|split; [exact ND|]].
     - apply (inv_preserved_all h rs o fo news removed added) with (H := H).
       + rewrite Hnew, Hold. rewrite <- !app_assoc. apply Permutation_app_head. apply Permutation_app_comm.
@@ -284,7 +401,6 @@ Proof.
   split; [intros [-> ->]; reflexivity|intros [= -> ->]; split; reflexivity].
 Qed.
 
-Definition call_key (c : call) : hkey := let '(k, _, _, _, _) := c in k.
 Definition call_slot (c : call) : oid * fname := let '(_, x, f, _, _) := c in (x, f).
 
 (* what one step guarantees *)
@@ -362,10 +478,65 @@ Proof.
   unfold splice. rewrite <- app_assoc. apply Permutation_app_head. apply Permutation_app_comm.
 Qed.
 
+Lemma observe1_inv st k r g : inv st -> inv (observe1 st k r g).
+Proof.
+  intros Hinv. unfold inv, observe1 in *. cbn [st_hooks st_heap st_regs].
+  unfold expected_all in *. rewrite flat_map_app. cbn [flat_map]. rewrite app_nil_r.
+  apply Permutation_app; [exact Hinv|]. apply add_order_expected.
+Qed.
+
+Lemma observe_all_spec k r : forall gs st, inv st ->
+  inv (fold_left (fun s g => observe1 s k r g) gs st)
+  /\ st_heap (fold_left (fun s g => observe1 s k r g) gs st) = st_heap st
+  /\ st_regs (fold_left (fun s g => observe1 s k r g) gs st) = st_regs st ++ map (pair (k, r)) gs.
+Proof.
+  induction gs as [|g gs IH]; intros st I; cbn [fold_left map].
+  - rewrite app_nil_r. tauto.
+  - destruct (IH (observe1 st k r g) (observe1_inv st k r g I)) as [A [B C]].
+    split; [exact A|]. split; [rewrite B; reflexivity|]. rewrite C. cbn [observe1 st_regs].
+    rewrite <- app_assoc. reflexivity.
+Qed.
+
+Lemma unobserve1_spec st k r g : inv st -> existsb (reg_eqb ((k, r), g)) (st_regs st) = true ->
+  exists st', unobserve1 st k r g = Some st' /\ inv st' /\ st_heap st' = st_heap st
+              /\ st_regs st' = remove_reg ((k, r), g) (st_regs st).
+Proof.
+  intros Hinv Hyp. pose proof (remove_reg_perm _ _ Hyp) as PR.
+  destruct (remove_all_complete (rem_order (st_heap st) (k, r) g r) (st_hooks st)
+              (expected_all (st_heap st) (remove_reg (k, r, g) (st_regs st)))) as [H' [E PH]].
+  { unfold inv in Hinv. rewrite Hinv. rewrite (expected_all_perm _ _ _ PR).
+    unfold expected_all at 1. cbn [flat_map]. fold (expected_all (st_heap st) (remove_reg (k, r, g) (st_regs st))).
+    rewrite Permutation_app_comm. apply Permutation_app_head.
+    unfold expected_reg. cbn [fst snd]. symmetry. apply rem_order_expected. }
+  unfold unobserve1. rewrite E. eexists. split; [reflexivity|]. split; [exact PH|]. split; reflexivity.
+Qed.
+
+Lemma unobserve_all_spec k r : forall gs st, inv st -> regs_present k r gs (st_regs st) = true ->
+  exists st', unobserve_all st k r gs = Some st' /\ inv st' /\ st_heap st' = st_heap st
+              /\ st_regs st' = fold_left (fun rs g => remove_reg ((k, r), g) rs) gs (st_regs st).
+Proof.
+  induction gs as [|g gs IH]; intros st I P; cbn [unobserve_all regs_present fold_left] in *.
+  - exists st. tauto.
+  - apply andb_true_iff in P. destruct P as [P1 P2].
+    destruct (unobserve1_spec st k r g I P1) as [st1 [E [I1 [H1 R1]]]]. rewrite E.
+    rewrite <- R1 in P2. destruct (IH st1 I1 P2) as [st' [E' [I' [H' R']]]].
+    exists st'. split; [exact E'|]. split; [exact I'|]. split; [congruence|]. rewrite R', R1. reflexivity.
+Qed.
+
+Lemma splice_delta l i n vs : Permutation (splice l i n vs ++ spliced_out l i n) (l ++ vs).
+Proof.
+  etransitivity; [apply Permutation_app_tail; apply splice_new|].
+  etransitivity; [|apply Permutation_app_tail; symmetry; apply (splice_old l i n)].
+  rewrite <- !app_assoc. do 2 apply Permutation_app_head. apply Permutation_app_comm.
+Qed.
+
 Lemma step_spec st o : inv st -> op_hyp st o = true -> step_ok st o.
 Proof.
-  intros Hinv Hyp. unfold step_ok. destruct o as [k r g|k r g|x f v|x f items de|x f|c f i n vs|x];
+  intros Hinv Hyp. unfold step_ok. destruct o as [k r g|k r g|k r gs|k r gs|x f v|x f items de|x f|c f i n vs|x];
     cbn [step notified op_hyp] in *.
+  3: { destruct (observe_all_spec k r gs st Hinv) as [A _]. split; [exact A|]. split; reflexivity. }
+  3: { destruct (unobserve_all_spec k r gs st Hinv Hyp) as [st' [E [I' _]]]. rewrite E.
+       split; [exact I'|]. split; reflexivity. }
   - (* Observe *)
     split; [|split; reflexivity]. unfold inv in *. cbn [st_hooks st_heap st_regs].
     unfold expected_all in *. rewrite flat_map_app. cbn [flat_map]. rewrite app_nil_r.
@@ -478,3 +649,243 @@ Qed.
 Lemma refcount_is_multiplicity st (eq_dec : forall a b : oid * fname * kind, {a = b} + {a <> b}) hk :
   inv st -> count_occ eq_dec (st_hooks st) hk = count_occ eq_dec (expected_all (st_heap st) (st_regs st)) hk.
 Proof. intros I. apply Permutation_count_occ. exact I. Qed.
+
+(* ---------- the boolean law holds on every history of the model ---------- *)
+Lemma count_nat_perm x a b : Permutation a b -> count_nat x a = count_nat x b.
+Proof.
+  unfold count_nat. induction 1; cbn; try congruence.
+  - destruct (Nat.eqb x x0); cbn; congruence.
+  - destruct (Nat.eqb x y), (Nat.eqb x x0); reflexivity.
+Qed.
+Lemma perm_eqb_of_perm a b : Permutation a b -> perm_eqb a b = true.
+Proof.
+  intros P. unfold perm_eqb. apply forallb_forall. intros x _. apply Nat.eqb_eq. apply count_nat_perm. exact P.
+Qed.
+
+Lemma nodup_keys_In k l : In k (nodup_keys l) <-> In k l.
+Proof.
+  induction l as [|a l IH]; cbn; [tauto|]. destruct (mem_key a l) eqn:M.
+  - rewrite IH. split; [tauto|]. intros [<-|I]; [apply mem_key_In; exact M|exact I].
+  - cbn. rewrite IH. tauto.
+Qed.
+Lemma nodup_b_of_NoDup l : NoDup l -> nodup_b l = true.
+Proof.
+  induction 1 as [|a l Na ND IH]; [reflexivity|]. cbn. rewrite IH, andb_true_r.
+  apply negb_true_iff. destruct (mem_key a l) eqn:M; [apply mem_key_In in M; contradiction|reflexivity].
+Qed.
+
+Lemma expect_keys_In rs h x f k :
+  In k (expect_keys rs h x f) <-> exists g, In (k, g) rs /\ matched h g (snd k) x f = true.
+Proof.
+  unfold expect_keys. rewrite nodup_keys_In, in_map_iff. split.
+  - intros [[k' g] [E I]]. cbn in E. subst k'. apply filter_In in I. exists g. exact I.
+  - intros [g I]. exists (k, g). split; [reflexivity|]. apply filter_In. exact I.
+Qed.
+
+Lemma filter_nil {A} (p : A -> bool) l : (forall a, In a l -> p a = false) -> filter p l = [].
+Proof.
+  induction l as [|a l IH]; intros H; [reflexivity|]. cbn. rewrite (H a (or_introl eq_refl)).
+  apply IH. intros b I. apply H. right. exact I.
+Qed.
+
+Lemma law_step_from_facts hb rs o ob x f :
+  op_slot o = Some (x, f) ->
+  ob_out ob = Ok ->
+  NoDup (map call_key (ob_calls ob)) ->
+  (forall k, In k (map call_key (ob_calls ob)) -> exists g, In (k, g) rs /\ matched hb g (snd k) x f = true) ->
+  (classify hb (apply_delta hb (ob_delta ob)) o = Exact ->
+   forall k g, In (k, g) rs -> matched hb g (snd k) x f = true -> In k (map call_key (ob_calls ob))) ->
+  (classify hb (apply_delta hb (ob_delta ob)) o = NoChange -> ob_calls ob = []) ->
+  forallb (call_ok hb (apply_delta hb (ob_delta ob)) o x f) (ob_calls ob) = true ->
+  law_step hb rs o ob = [].
+Proof.
+  intros SL OK ND SUB EX NC CO. unfold law_step. rewrite SL.
+  set (keys := map call_key (ob_calls ob)) in *.
+  assert (filter (fun k => negb (mem_key k (expect_keys rs hb x f))) keys = []) as BAD.
+  { apply filter_nil. intros k I. apply negb_false_iff. apply mem_key_In. apply expect_keys_In. apply SUB. exact I. }
+  rewrite BAD. cbn [forallb]. rewrite OK. cbn [is_ok]. rewrite (nodup_b_of_NoDup _ ND). rewrite CO.
+  cbn [chk app].
+  assert (match classify hb (apply_delta hb (ob_delta ob)) o with
+          | Exact => forallb (fun k => mem_key k keys) (expect_keys rs hb x f) | _ => true end = true) as C1.
+  { destruct (classify hb (apply_delta hb (ob_delta ob)) o) eqn:E; try reflexivity.
+    apply forallb_forall. intros k I. apply mem_key_In. apply expect_keys_In in I. destruct I as [g [Hr Hm]].
+    apply (EX eq_refl k g Hr Hm). }
+  rewrite C1.
+  assert (match classify hb (apply_delta hb (ob_delta ob)) o with
+          | NoChange => forallb (fun k => negb (mem_key k (expect_keys rs hb x f))) keys | _ => true end = true) as C7.
+  { destruct (classify hb (apply_delta hb (ob_delta ob)) o) eqn:E; try reflexivity.
+    unfold keys. rewrite (NC eq_refl). reflexivity. }
+  rewrite C7. reflexivity.
+Qed.
+
+Lemma list_eqb_refl a : list_eqb a a = true.
+Proof. apply list_eqb_eq. reflexivity. Qed.
+
+Lemma forallb_map_calls (p : call -> bool) ks x f (r a : list oid) :
+  (forall k, p (k, x, f, r, a) = true) -> forallb p (map (fun k : hkey => (k, x, f, r, a)) ks) = true.
+Proof. intros P. apply forallb_forall. intros c I. apply in_map_iff in I. destruct I as [k [<- _]]. apply P. Qed.
+
+(* a change of the current heap, judged by the law *)
+Lemma change_law st o0 o fo news removed added keep prevented strict :
+  inv st ->
+  Permutation (st_heap st o fo) (keep ++ removed) -> Permutation news (keep ++ added) ->
+  edge_acyclic (st_heap st) (st_regs st) o fo news ->
+  op_slot o0 = Some (o, fo) ->
+  (prevented = true -> classify (st_heap st) (upd (st_heap st) o fo news) o0 = NoChange) ->
+  (prevented = false -> classify (st_heap st) (upd (st_heap st) o fo news) o0 <> NoChange) ->
+  (forall k, call_ok (st_heap st) (upd (st_heap st) o fo news) o0 o fo (k, o, fo, removed, added) = true) ->
+  law_step (st_heap st) (st_regs st) o0 (snd (change st o fo news removed added prevented strict)) = []
+  /\ apply_delta (st_heap st) (ob_delta (snd (change st o fo news removed added prevented strict)))
+     = st_heap (fst (change st o fo news removed added prevented strict))
+  /\ st_regs (fst (change st o fo news removed added prevented strict)) = st_regs st.
+Proof.
+  intros Hinv Hold Hnew Hacyc SL P1 P2 CO.
+  destruct (change_spec st o fo news removed added keep prevented strict Hinv Hold Hnew Hacyc)
+    as [H' [ks [E [PH [ND Sp]]]]].
+  rewrite E. cbn [fst snd st_heap st_regs ob_delta]. split; [|split; reflexivity].
+  apply (law_step_from_facts _ _ _ _ o fo SL); cbn [ob_out ob_calls ob_delta apply_delta fold_left].
+  - reflexivity.
+  - destruct prevented; [constructor|]. rewrite map_call_key. exact ND.
+  - destruct prevented; [intros k []|]. rewrite map_call_key. intros k I. apply Sp. exact I.
+  - intros EX k g Hr Hm. destruct prevented.
+    + rewrite (P1 eq_refl) in EX. discriminate.
+    + rewrite map_call_key. apply Sp. exists g. tauto.
+  - intros NC. destruct prevented; [reflexivity|]. exfalso. apply (P2 eq_refl). exact NC.
+  - destruct prevented; [reflexivity|]. apply forallb_map_calls. exact CO.
+Qed.
+
+Lemma quiet_law st o0 x f :
+  op_slot o0 = Some (x, f) ->
+  classify (st_heap st) (st_heap st) o0 <> Exact ->
+  law_step (st_heap st) (st_regs st) o0 (mkObs Ok [] []) = [].
+Proof.
+  intros SL NE. apply (law_step_from_facts _ _ _ _ x f SL); cbn; try reflexivity; try constructor.
+  - intros k [].
+  - intros E. contradiction.
+Qed.
+
+Lemma upd_other h o f v x g : slot_eqb x g o f = false -> upd h o f v x g = h x g.
+Proof. intros E. unfold upd. rewrite E. reflexivity. Qed.
+
+Lemma step_law st o : inv st -> op_hyp st o = true ->
+  law_step (st_heap st) (st_regs st) o (snd (step st o)) = []
+  /\ apply_delta (st_heap st) (ob_delta (snd (step st o))) = st_heap (fst (step st o))
+  /\ law_regs (st_regs st) o (snd (step st o)) = st_regs (fst (step st o)).
+Proof.
+  intros Hinv Hyp. destruct o as [k r g|k r g|k r gs|k r gs|x f v|x f items de|x f|c f i n vs|x];
+    cbn [step op_hyp] in *.
+  3: { destruct (observe_all_spec k r gs st Hinv) as [_ [B C]]. cbn [fst snd ob_delta ob_out law_regs].
+       split; [reflexivity|]. split; [cbn; symmetry; exact B|symmetry; exact C]. }
+  3: { destruct (unobserve_all_spec k r gs st Hinv Hyp) as [st' [E [_ [B C]]]]. rewrite E.
+       cbn [fst snd ob_delta ob_out law_regs]. split; [reflexivity|]. split; [cbn; symmetry; exact B|symmetry; exact C]. }
+  - (* Observe *) cbn. repeat split; reflexivity.
+  - (* Unobserve *)
+    pose proof (remove_reg_perm _ _ Hyp) as PR.
+    destruct (remove_all_complete (rem_order (st_heap st) (k, r) g r) (st_hooks st)
+                (expected_all (st_heap st) (remove_reg (k, r, g) (st_regs st)))) as [H' [E PH]].
+    { unfold inv in Hinv. rewrite Hinv. rewrite (expected_all_perm _ _ _ PR).
+      unfold expected_all at 1. cbn [flat_map]. fold (expected_all (st_heap st) (remove_reg (k, r, g) (st_regs st))).
+      rewrite Permutation_app_comm. apply Permutation_app_head.
+      unfold expected_reg. cbn [fst snd]. symmetry. apply rem_order_expected. }
+    rewrite E. cbn. repeat split; reflexivity.
+  - (* SetRef *)
+    destruct (list_eqb (st_heap st x f) v) eqn:Q.
+    + cbn [quiet fst snd ob_delta apply_delta fold_left law_regs ob_out]. split; [|split; reflexivity].
+      apply (quiet_law st _ x f); [reflexivity|]. cbn [classify]. rewrite list_eqb_refl. discriminate.
+    + pose proof (change_law st (SetRef x f v) x f v (st_heap st x f) v [] false false Hinv
+                    (Permutation_refl _) (Permutation_refl _) (edge_acyclic_b_spec _ _ _ _ _ Hyp) eq_refl) as C.
+      destruct C as [L [D RG]].
+      * discriminate.
+      * intros _. cbn [classify]. rewrite upd_same, Q. discriminate.
+      * intros k0. cbn [call_ok]. rewrite !Nat.eqb_refl. cbn [andb]. rewrite upd_same.
+        rewrite !perm_eqb_of_perm; reflexivity.
+      * split; [exact L|]. split; [exact D|]. cbn [law_regs]. rewrite RG. reflexivity.
+  - (* SetCont *)
+    apply andb_true_iff in Hyp. destruct Hyp as [Fr Ac].
+    set (c := st_next st) in *. set (fc := items_field f) in *. set (h := st_heap st) in *.
+    set (st1 := mkState (upd h c fc items) (st_hooks st) (st_regs st) (S c)).
+    assert (inv st1) as I1.
+    { unfold inv, st1. cbn [st_hooks st_heap st_regs]. rewrite (expected_all_fresh _ _ _ _ _ Fr). exact Hinv. }
+    assert (slot_eqb x f c fc = false) as NE1.
+    { unfold slot_eqb. replace (Nat.eqb f fc) with false; [apply andb_false_r|].
+      symmetry. apply Nat.eqb_neq. unfold fc, items_field. lia. }
+    assert (slot_eqb c fc x f = false) as NE2.
+    { unfold slot_eqb. replace (Nat.eqb fc f) with false; [apply andb_false_r|].
+      symmetry. apply Nat.eqb_neq. unfold fc, items_field. lia. }
+    assert (st_heap st1 x f = h x f) as SL by (unfold st1; cbn [st_heap]; apply upd_other; exact NE1).
+    match goal with |- context [change st1 x f [c] ?olds [c] ?p false] => set (prevented := p) in * end.
+    assert (edge_acyclic (st_heap st1) (st_regs st1) x f [c]) as Ac' by (apply edge_acyclic_b_spec; exact Ac).
+    assert (Permutation (st_heap st1 x f) ([] ++ h x f)) as Ho by (rewrite SL; reflexivity).
+    destruct (change_spec st1 x f [c] (h x f) [c] [] prevented false I1 Ho (Permutation_refl _) Ac')
+      as [H' [ks [E [PH [ND Sp]]]]].
+    rewrite E. cbn [fst snd st_heap st_regs ob_delta ob_out ob_calls st1].
+    set (ha := upd (upd h c fc items) x f [c]).
+    assert (apply_delta h [(c, fc, items); (x, f, [c])] = ha) as AD by reflexivity.
+    split; [|split; [exact AD|reflexivity]].
+    assert (ha x f = [c]) as HA1 by (unfold ha; apply upd_same).
+    assert (ha c fc = items) as HA2 by (unfold ha; rewrite (upd_other _ _ _ _ _ _ NE2); apply upd_same).
+    assert (classify h ha (SetCont x f items de) = if prevented then NoChange else Exact) as CL.
+    { cbn [classify]. rewrite HA1. change (items_field f) with fc. rewrite HA2.
+      unfold prevented. destruct (h x f) as [|y ys]; [|reflexivity].
+      destruct items; reflexivity. }
+    apply (law_step_from_facts h (st_regs st) (SetCont x f items de) _ x f eq_refl);
+      cbn [ob_out ob_calls ob_delta]; rewrite ?AD.
+    + reflexivity.
+    + destruct prevented; [constructor|]. rewrite map_call_key. exact ND.
+    + destruct prevented; [intros k0 []|]. rewrite map_call_key. intros k0 I. apply Sp in I.
+      destruct I as [g0 [Hr Hm]]. exists g0. split; [exact Hr|]. cbn [st_heap st_regs st1] in *.
+      rewrite matched_frame in Hm; [exact Hm|]. unfold fresh_b in Fr. rewrite forallb_forall in Fr.
+      apply negb_true_iff. apply (Fr (k0, g0) Hr).
+    + rewrite CL. intros EX k0 g0 Hr Hm. destruct prevented; [discriminate|]. rewrite map_call_key. apply Sp.
+      exists g0. split; [exact Hr|]. cbn [st_heap st1]. rewrite matched_frame; [exact Hm|].
+      unfold fresh_b in Fr. rewrite forallb_forall in Fr. apply negb_true_iff. apply (Fr (k0, g0) Hr).
+    + rewrite CL. intros NC. destruct prevented; [reflexivity|discriminate].
+    + destruct prevented; [reflexivity|]. apply forallb_map_calls. intros k0. cbn [call_ok].
+      rewrite !Nat.eqb_refl. cbn [andb]. rewrite HA1. rewrite !perm_eqb_of_perm; reflexivity.
+  - (* Touch *)
+    destruct (st_heap st x f) eqn:Q.
+    + set (st1 := mkState (st_heap st) (st_hooks st) (st_regs st) (S (st_next st))).
+      assert (Permutation (st_heap st1 x f) ([] ++ [])) as Ho by (cbn; rewrite Q; reflexivity).
+      pose proof (change_law st1 (Touch x f) x f [st_next st] [] [st_next st] [] true false Hinv Ho
+                    (Permutation_refl _) (edge_acyclic_b_spec _ _ _ _ _ Hyp) eq_refl) as C.
+      destruct C as [L [D RG]]; [reflexivity|discriminate| |].
+      { intros k0. cbn [call_ok]. rewrite !Nat.eqb_refl. cbn [andb st_heap st1]. rewrite Q, upd_same.
+        rewrite !perm_eqb_of_perm; reflexivity. }
+      split; [exact L|]. split; [exact D|]. cbn [law_regs]. rewrite RG. reflexivity.
+    + cbn [quiet fst snd ob_delta apply_delta fold_left law_regs ob_out]. split; [|split; reflexivity].
+      apply (quiet_law st _ x f); [reflexivity|]. cbn [classify]. discriminate.
+  - (* Splice *)
+    destruct (spliced_out (st_heap st c f) i n ++ vs) eqn:Q.
+    + cbn [quiet fst snd ob_delta apply_delta fold_left law_regs ob_out]. split; [|split; reflexivity].
+      apply (quiet_law st _ c f); [reflexivity|]. cbn [classify]. rewrite list_eqb_refl. discriminate.
+    + pose proof (change_law st (Splice c f i n vs) c f (splice (st_heap st c f) i n vs)
+                   (spliced_out (st_heap st c f) i n) vs
+                   (firstn i (st_heap st c f) ++ skipn n (skipn i (st_heap st c f))) false true Hinv
+                   (splice_old _ _ _) (splice_new _ _ _ _) (edge_acyclic_b_spec _ _ _ _ _ Hyp) eq_refl) as C.
+      destruct C as [L [D RG]].
+      * discriminate.
+      * intros _. cbn [classify]. destruct (list_eqb _ _); discriminate.
+      * intros k0. cbn [call_ok]. rewrite !Nat.eqb_refl. cbn [andb]. rewrite upd_same.
+        apply perm_eqb_of_perm. apply splice_delta.
+      * split; [exact L|]. split; [exact D|]. cbn [law_regs]. rewrite RG. reflexivity.
+  - (* Probe *)
+    assert (Permutation (st_heap st x 0) (st_heap st x 0 ++ [])) as Ho by (rewrite app_nil_r; reflexivity).
+    pose proof (change_law st (Probe x) x 0 (st_heap st x 0) [] [] (st_heap st x 0) false false Hinv Ho Ho
+                  (edge_acyclic_b_spec _ _ _ _ _ Hyp) eq_refl) as C.
+    destruct C as [L [D RG]].
+    + discriminate.
+    + intros _. cbn [classify]. discriminate.
+    + intros k0. cbn [call_ok]. rewrite !Nat.eqb_refl. reflexivity.
+    + split; [exact L|]. split; [exact D|]. cbn [law_regs]. rewrite RG. reflexivity.
+Qed.
+
+Lemma law_hist_model : forall ops st i, inv st -> hyps st ops = true ->
+  law_hist i (st_heap st) (st_regs st) (run st ops) = [].
+Proof.
+  induction ops as [|o ops IH]; intros st i I Hy; cbn [run]; [reflexivity|].
+  cbn [hyps] in Hy. apply andb_true_iff in Hy. destruct Hy as [H1 H2].
+  pose proof (step_law st o I H1) as [L [D RG]].
+  pose proof (step_spec st o I H1) as S. unfold step_ok in S.
+  destruct (step st o) as [st' ob]. cbn [fst snd] in *. cbn [law_hist].
+  rewrite L. cbn [map app]. rewrite D, RG. apply IH; tauto.
+Qed.
